@@ -27,6 +27,7 @@ import (
 	"github.com/olive-io/bpmn/v2/pkg/event"
 	"github.com/olive-io/bpmn/v2/pkg/id"
 	"github.com/olive-io/bpmn/v2/pkg/tracing"
+	"github.com/olive-io/bpmn/v2/pkg/verifhook"
 )
 
 type Options struct {
@@ -611,6 +612,7 @@ func (p *Process) StartWith(ctx context.Context, element schema.FlowNodeInterfac
 		sender := p.tracer.RegisterSender()
 		monitor := p.ceaseFlowMonitor(p.subTracer)
 		eventNode.Trigger(ctx)
+		verifhook.Point("process.startwith")
 		go monitor(ctx, sender)
 		p.tracer.Send(InstantiationTrace{InstanceId: p.id})
 
